@@ -28,8 +28,11 @@ THOROUGH_ONLY = (
     "urwid/display/common.py:AttrSpec.foreground",
     "urwid/display/common.py:AttrSpec.__set_foreground",
     "urwid/util.py:rle_product",
+    "urwid/canvas.py:TextCanvas.__init__#two-rows",  # 2775 paths, ~6 min on one core (the one-row instance runs in the quick tier)
 )
 SHARDS.update({
+    "urwid/canvas.py:TextCanvas.__init__#up-to-one-row": (6, 5),
+    "urwid/canvas.py:TextCanvas.__init__#two-rows": (16, 8),
     "urwid/widget/columns.py:Columns.column_widths": (16, 12),
     "urwid/vterm.py:TermCanvas.resize": (10, 6),
     "urwid/vterm.py:TermCanvas.remove_lines": (4, 4),
